@@ -33,7 +33,7 @@ theorem to_field_closed (o : Options) (h0 : o.overwrites = []) {P : Field → Pr
     simp only [Tracer.to_field, withOverwrite_nil o h0] at h
     split at h
     · simp [fail] at h
-    · cases h; exact hP.null n nl
+    · cases h; exact hP.null n true
   | .primitive n p nl ty st, f, hw, h => by
     simp only [WF] at hw
     obtain ⟨rfl, hl⟩ := hw
